@@ -847,10 +847,18 @@ func genTapLeaf(t *rapid.T, p *plan, sk *skeleton, idx int, pMut int, controlLen
 			pk = k.Compressed()
 		}
 		p.note("pubkey-of-%d-bytes", pkLen)
-		op := rapid.SampledFrom([]byte{ms.OP_CHECKSIG, ms.OP_CHECKSIGVERIFY}).Draw(t, "csOp")
-		b.Push(pk).Op(op)
-		if op == ms.OP_CHECKSIGVERIFY {
-			b.Op(ms.OP_1)
+		op := rapid.SampledFrom([]byte{ms.OP_CHECKSIG, ms.OP_CHECKSIGVERIFY, ms.OP_NOT, ms.OP_CHECKSIGADD}).Draw(t, "csOp")
+		switch op {
+		case ms.OP_CHECKSIGVERIFY:
+			b.Push(pk).Op(op, ms.OP_1)
+		case ms.OP_NOT:
+			// a failing check is tolerated: CHECKSIG NOT
+			b.Push(pk).Op(ms.OP_CHECKSIG, ms.OP_NOT)
+		case ms.OP_CHECKSIGADD:
+			// sig 1 pk CHECKSIGADD leaves 1 or 2
+			b.Op(ms.OP_1).Push(pk).Op(ms.OP_CHECKSIGADD)
+		default:
+			b.Push(pk).Op(op)
 		}
 		l.script = b.B
 		l.satisfy = func(t *rapid.T, p *plan, sign tapSignFn) [][]byte {
@@ -1006,8 +1014,8 @@ func cleanTapSig() tapSigOpts { return tapSigOpts{flip: -1} }
 func genTaprootPlan(t *rapid.T, sk *skeleton, idx int, pMut int) *plan {
 	p := &plan{}
 	internal := key(8 + rapid.IntRange(0, 3).Draw(t, "internalKey"))
-	nLeaves := rapid.SampledFrom([]int{0, 1, 1, 2, 3, 4, 5, 8}).Draw(t, "nLeaves")
-	keyPath := nLeaves == 0 || rapid.IntRange(0, 3).Draw(t, "keyPath") == 0
+	nLeaves := rapid.SampledFrom([]int{1, 2, 0, 3, 1, 4, 5, 8}).Draw(t, "nLeaves")
+	keyPath := nLeaves == 0 || rapid.IntRange(0, 3).Draw(t, "keyPath") == 3
 	var leaves []ms.TapLeaf
 	var target *tapLeafScript
 	targetIdx := 0
@@ -1172,13 +1180,13 @@ func genTaprootPlan(t *rapid.T, sk *skeleton, idx int, pMut int) *plan {
 // genPlan draws one plan. pMut is the per-opportunity mutation percentage.
 func genPlan(t *rapid.T, sk *skeleton, idx int, allowLate bool, pMuts []int) *plan {
 	pMut := rapid.SampledFrom(pMuts).Draw(t, "pMut")
-	fam := rapid.IntRange(0, 99).Draw(t, "family")
+	fam := rapid.SampledFrom([]string{"taproot", "ecdsa", "taproot", "ecdsa", "ecdsa", "taproot", "ecdsa", "program", "sig-in-script", "taproot", "ecdsa"}).Draw(t, "family")
 	switch {
-	case fam < 48:
+	case fam == "ecdsa":
 		return genECDSAPlan(t, sk, idx, pMut)
-	case fam < 88:
+	case fam == "taproot":
 		return genTaprootPlan(t, sk, idx, pMut)
-	case fam < 95 || !allowLate:
+	case fam == "program" || !allowLate:
 		return genProgramPlan(t, sk, idx)
 	default:
 		return genSigInScriptPlan(t, sk, idx)
@@ -1201,8 +1209,9 @@ func genG3Spend(t *rapid.T) *spend {
 // template-specific mutations reach rarely: the evaluation of the scriptSig
 // itself, and the final CLEANSTACK / unexpected-witness checks.
 func stageMutation(t *rapid.T, p *plan, in *ms.TxIn) {
+	// (rapid draws small values more often: "no mutation" comes first)
 	switch rapid.IntRange(0, 11).Draw(t, "stageMut") {
-	case 0:
+	case 5:
 		bad := rapid.SampledFrom([][]byte{{ms.OP_VERIFY}, {ms.OP_IF}, {ms.OP_RETURN}, {ms.OP_PUSHDATA1}, {ms.OP_DUP},
 			{ms.OP_1, ms.OP_IF}, {ms.OP_0, ms.OP_VERIFY}, {ms.OP_RESERVED}, {ms.OP_CAT}}).Draw(t, "badScriptSig")
 		if rapid.Bool().Draw(t, "badFirst") {
@@ -1211,16 +1220,16 @@ func stageMutation(t *rapid.T, p *plan, in *ms.TxIn) {
 			in.ScriptSig = append(append([]byte{}, in.ScriptSig...), bad...)
 		}
 		p.note("scriptSig-fails-by-itself(%x)", bad)
-	case 1:
+	case 6:
 		in.ScriptSig = append(ms.PushData(fill(521, 1)), in.ScriptSig...)
 		p.note("521-byte-push-in-scriptSig")
-	case 2, 3:
+	case 7, 8, 9:
 		if len(in.Witness) == 0 {
 			// an extra element at the bottom of the stack: only CLEANSTACK minds
 			in.ScriptSig = append([]byte{rapid.SampledFrom([]byte{ms.OP_0, ms.OP_1, ms.OP_16}).Draw(t, "bottomItem")}, in.ScriptSig...)
 			p.note("extra-item-at-stack-bottom")
 		}
-	case 4:
+	case 10, 11:
 		if len(in.Witness) == 0 {
 			in.Witness = [][]byte{rapid.SampledFrom([][]byte{{}, {1}, {0x30, 0x01}}).Draw(t, "strayWitness2")}
 			p.note("witness-on-non-witness-spend")
